@@ -1,0 +1,79 @@
+//! Verification hooks (cargo feature `verif_hooks`, off by default).
+//!
+//! A thread-local, append-only event log that external runtime monitors can
+//! switch on, drain and check. With the feature off this module does not exist
+//! and none of the call sites is compiled.
+
+use std::cell::RefCell;
+
+/// Events emitted by the instrumented call sites.
+#[derive(Debug, Clone, PartialEq, Eq)]
+pub enum Event {
+    /// enum parser: a whole-value parse starts; `slots` = filled-slot mask of the intermediate result
+    /// (bit 0 budget, 1 term, 2 punctuation, 3 stamp, 4 truth)
+    EnumParseStart { slots: u8 },
+    /// enum parser: about to consume one item
+    EnumConsumeBegin {
+        head: usize,
+        len_env: usize,
+        slots: u8,
+    },
+    /// enum parser: one item was consumed successfully
+    EnumConsumeEnd {
+        head: usize,
+        len_env: usize,
+        slots: u8,
+    },
+    /// enum parser: a parse error is being built with the cursor at `index`
+    EnumError { index: usize, len_env: usize },
+    /// lexical parser: item borders computed by `parse_items`
+    /// (`mask`: bit 0 budget, 2 punctuation, 3 stamp, 4 truth)
+    LexItems {
+        len: usize,
+        begin: usize,
+        right: usize,
+        mask: u8,
+    },
+    /// lexical parser: one activation of `segment_term` on an environment of `len` chars
+    LexSegmentTerm { len: usize },
+}
+
+/// Upper bound of buffered events per thread; further events are only counted
+const CAPACITY: usize = 1 << 20;
+
+struct Log {
+    enabled: bool,
+    events: Vec<Event>,
+    dropped: usize,
+}
+
+thread_local! {
+    static LOG: RefCell<Log> = const { RefCell::new(Log { enabled: false, events: Vec::new(), dropped: 0 }) };
+}
+
+/// Switch event recording on/off for the current thread
+pub fn enable(on: bool) {
+    LOG.with(|log| log.borrow_mut().enabled = on)
+}
+
+/// Append one event (no-op unless enabled on this thread)
+pub fn emit(event: Event) {
+    LOG.with(|log| {
+        let mut log = log.borrow_mut();
+        if log.enabled {
+            match log.events.len() < CAPACITY {
+                true => log.events.push(event),
+                false => log.dropped += 1,
+            }
+        }
+    })
+}
+
+/// Take all recorded events of the current thread, and the number of events dropped for capacity
+pub fn drain() -> (Vec<Event>, usize) {
+    LOG.with(|log| {
+        let mut log = log.borrow_mut();
+        let dropped = std::mem::take(&mut log.dropped);
+        (std::mem::take(&mut log.events), dropped)
+    })
+}
